@@ -19,6 +19,7 @@ import ast
 import re
 from typing import Any, Dict, List, Optional, Sequence, Set, Tuple
 
+from engine.srcmatch import U
 from engine.fold import Folder
 from engine.mathobj import NOTIMPL, Dispatcher, Obj, ang_input, mat_input, vec_input
 from engine.model import resolve_method, AnalysisError, Program, base_names, dotted, mro, walk_no_nested
@@ -65,7 +66,7 @@ def local_store_verdicts(fn: ast.AST) -> Dict[int, Tuple[bool, str]]:
             return N if fs == {N} else sorted(fs - {N})[0]
         if single_mod(e):
             return 'a single `% 360` (a tiny negative value wraps to exactly 360.0)'
-        return f'`{ast.unparse(e)[:50]}` is not normalised'
+        return f'`{U(e)[:50]}` is not normalised'
 
     def escape_test(t: ast.AST) -> Optional[Tuple[Set[str], bool]]:
         """(locals tested, upper bound is inclusive i.e. `>= 360`) for `lo < 0 or hi >= 360` shaped tests"""
@@ -122,7 +123,7 @@ def local_store_verdicts(fn: ast.AST) -> Dict[int, Tuple[bool, str]]:
                     names, inclusive = esc
                     for nm in names:
                         if nm in e2 and e2[nm] != {N}:
-                            e2[nm] = {N} if inclusive else {'let through by the range test `' + ast.unparse(st.test)[:70] + '` when it is exactly 360.0 (the bound must be `>= 360`)'}
+                            e2[nm] = {N} if inclusive else {'let through by the range test `' + U(st.test)[:70] + '` when it is exactly 360.0 (the bound must be `>= 360`)'}
                 e2 = block(st.orelse, e2)
                 env = {k: e1.get(k, set()) | e2.get(k, set()) for k in set(e1) | set(e2)}
             elif isinstance(st, (ast.For, ast.While)):
@@ -274,8 +275,8 @@ def run(ctx: Any, prog: Program) -> None:
                         why = 'round() after normalisation: a value in [359.9999995, 360) becomes exactly 360.0'
                     else:
                         why = 'not a recognised normalised form'
-                    ctx.check('C05.G1', ok, mt, n, f'store to {ast.unparse(t)}: {why or "normalised"}', func=qual,
-                              text=f'{ast.unparse(t)} = {ast.unparse(v)[:80]}')
+                    ctx.check('C05.G1', ok, mt, n, f'store to {U(t)}: {why or "normalised"}', func=qual,
+                              text=f'{U(t)} = {U(v)[:80]}')
     # setattr-style writes on angle classes
     for cname in ('AngleBase', 'Angle', 'FrozenAngle'):
         for n, f in mt.methods(cname).items():
@@ -410,7 +411,7 @@ def run(ctx: Any, prog: Program) -> None:
             if re.fullmatch(r'__i(add|sub|mul|truediv|floordiv|mod|matmul|pow|and|or|xor|lshift|rshift)__', name) or name in ('__setitem__', '__delitem__', '__setattr__', '__delattr__'):
                 ctx.check('C05.G2', False, mt, fn, f'{fc} inherits/defines the in-place method {name} (from {owner})', func=f'{owner}.{name}', text=f'{fc} has {name}')
                 continue
-            decs = [dotted(d) or ast.unparse(d) for d in getattr(fn, 'decorator_list', [])]
+            decs = [dotted(d) or U(d) for d in getattr(fn, 'decorator_list', [])]
             if any(d.endswith('.setter') or d.endswith('.deleter') for d in decs):
                 ctx.check('C05.G2', False, mt, fn, f'{fc} has a property setter {name} (from {owner})', func=f'{owner}.{name}', text=f'{fc} setter {name}')
                 continue
@@ -426,7 +427,7 @@ def run(ctx: Any, prog: Program) -> None:
             stores = self_stores(fn)
             ctx.check('C05.G2', not stores, mt, stores[0] if stores else fn,
                       f'method {owner}.{name}, reachable on a {fc}, stores to self' if stores else 'no store to self', func=f'{owner}.{name}',
-                      text=f'{fc}: {owner}.{name} ' + (ast.unparse(stores[0])[:60] if stores else 'read-only'))
+                      text=f'{fc}: {owner}.{name} ' + (U(stores[0])[:60] if stores else 'read-only'))
     # ---- G2 (ii): in-place mutators only on fresh / mutable-only targets --------------------------------------
     subclasses: Dict[str, Set[str]] = {}
     for cn in mt.all_classes():
@@ -514,7 +515,7 @@ def run(ctx: Any, prog: Program) -> None:
                     return True, f'{recv}.{short}() constructs a new object for every possible class'
                 if verdicts:
                     return False, f'{recv}.{short}() may return an existing object for {[c for c, g in verdicts if not g]}'
-            return False, f'call `{ast.unparse(e)[:40]}` is not a known constructor'
+            return False, f'call `{U(e)[:40]}` is not a known constructor'
         if isinstance(e, ast.Name) and depth < 4:
             if e.id == 'self' and not self_ok:
                 return False, 'returns self itself, not a new object'
@@ -540,7 +541,7 @@ def run(ctx: Any, prog: Program) -> None:
                 if not ok:
                     return False, why
             return True, 'all definitions fresh'
-        return False, f'`{ast.unparse(e)[:40]}` is not a fresh object'
+        return False, f'`{U(e)[:40]}` is not a fresh object'
 
     for qual, fns in mt.all_funcs().items():
         owner = qual.split('.')[0] if '.' in qual and mt.has_class(qual.split('.')[0]) else None
@@ -554,14 +555,14 @@ def run(ctx: Any, prog: Program) -> None:
                     if mname in MUTATORS and isinstance(tgt, ast.Name) and tgt.id in {a.arg for a in fn.args.args}:
                         continue  # the mutator's own body forwarding its parameter
                     ok, why = fresh_expr(fn, owner, tgt)
-                    ctx.check('C05.G2', ok, mt, c, f'in-place mutator {c.func.attr} applied to `{ast.unparse(tgt)}`: {why}', func=qual,
-                              text=f'{c.func.attr} on {ast.unparse(tgt)[:50]}')
+                    ctx.check('C05.G2', ok, mt, c, f'in-place mutator {c.func.attr} applied to `{U(tgt)}`: {why}', func=qual,
+                              text=f'{c.func.attr} on {U(tgt)[:50]}')
             # `x @= y` on a local matrix: target must be fresh too
             for n in walk_no_nested(fn):
                 if isinstance(n, ast.AugAssign) and isinstance(n.op, ast.MatMult) and isinstance(n.target, ast.Name) and n.target.id != 'self':
                     ok, why = fresh_expr(fn, owner, ast.Name(id=n.target.id, ctx=ast.Load()))
-                    ctx.check('C05.G2', ok, mt, n, f'`{ast.unparse(n)}` mutates `{n.target.id}` in place when it is mutable: {why}', func=qual,
-                              text=ast.unparse(n)[:60])
+                    ctx.check('C05.G2', ok, mt, n, f'`{U(n)}` mutates `{n.target.id}` in place when it is mutable: {why}', func=qual,
+                              text=U(n)[:60])
     # ---- G2 (iii): operator dispatch leaves frozen operands alone; `@` leaves both operands alone -----------------
     form, vform = extract_forms(prog)
     disp = Dispatcher(mt, form, vform)
@@ -621,7 +622,7 @@ def run(ctx: Any, prog: Program) -> None:
         # class-level alias `__copy__ = copy`
         for st in mt.cls(cname).body:
             if isinstance(st, ast.Assign) and any(isinstance(t, ast.Name) and t.id in ('__copy__', '__deepcopy__') for t in st.targets):
-                ctx.check('C05.G3', isinstance(st.value, ast.Name) and st.value.id == 'copy', mt, st, 'alias must point at copy()', func=cname, text=ast.unparse(st))
+                ctx.check('C05.G3', isinstance(st.value, ast.Name) and st.value.id == 'copy', mt, st, 'alias must point at copy()', func=cname, text=U(st))
 
     # ---- G4 -----------------------------------------------------------------------------------------
     ff = mt.func('format_float')
@@ -687,7 +688,7 @@ def check_format_float(ctx: Any, mod: Any, ff: Any) -> None:
     fmt_exprs = []
     for n in walk_no_nested(ff):
         if isinstance(n, ast.FormattedValue) and n.format_spec is not None:
-            spec = ast.unparse(n.format_spec)
+            spec = U(n.format_spec)
             fmt_exprs.append((n, spec))
     if len(fmt_exprs) != 1:
         raise AnalysisError('format_float: expected exactly one formatted value with a format spec')
@@ -712,7 +713,7 @@ def check_format_float(ctx: Any, mod: Any, ff: Any) -> None:
                 and isinstance(n.args[0], ast.Constant) and n.args[0].value == '-':
             pass
     ctx.check('C05.G4', rounded_first or string_fix, mod, fv,
-              f"format_float formats `{ast.unparse(e)}`: a negative value that rounds to zero (e.g. -1e-9) is rendered '-0.000000' -> '-0'; "
+              f"format_float formats `{U(e)}`: a negative value that rounds to zero (e.g. -1e-9) is rendered '-0.000000' -> '-0'; "
               "adding 0.0 before formatting only removes an exact -0.0 and there is no sign fix after the conversion", func='format_float', text="no '-0' after rounding")
     # single conversion discipline: every returned text derives from the fixed-point conversion above, except
     # alternative paths guarded by an *exact* test, or by a tolerance no larger than half a unit in the last place
@@ -752,7 +753,7 @@ def check_format_float(ctx: Any, mod: Any, ff: Any) -> None:
     from engine.fold import Folder, FoldError
     for r in [n for n in walk_no_nested(ff) if isinstance(n, ast.Return)]:
         if r.value is not None and derives(r.value):
-            ctx.check('C05.G4', True, mod, r, 'returned text derives from the fixed-point conversion', func='format_float', text='return ' + ast.unparse(r.value)[:50])
+            ctx.check('C05.G4', True, mod, r, 'returned text derives from the fixed-point conversion', func='format_float', text='return ' + U(r.value)[:50])
             continue
         # alternative numeric->text path: look at its guards
         guards = []
@@ -784,19 +785,19 @@ def check_format_float(ctx: Any, mod: Any, ff: Any) -> None:
                     try:
                         val = eval(compile(ast.Expression(body=tol), '<tol>', 'eval'), {'__builtins__': {}}, {places: pl})  # constant arithmetic in `places` only
                     except Exception:
-                        raise AnalysisError(f'format_float: tolerance `{ast.unparse(tol)}` is not constant arithmetic in `{places}`')
+                        raise AnalysisError(f'format_float: tolerance `{U(tol)}` is not constant arithmetic in `{places}`')
                     limit = 0.5 * 10.0 ** -pl
                     if val > limit or (isinstance(g.ops[0], ast.LtE) and val >= limit):
                         okall = False
                 verdict = okall if verdict is None else verdict and okall
-                why = (f'tolerance `{ast.unparse(tol)}` exceeds half a unit in the last place: distinct values up to that far from the shortcut value '
+                why = (f'tolerance `{U(tol)}` exceeds half a unit in the last place: distinct values up to that far from the shortcut value '
                        'are written identically, so the text no longer parses back within 0.5e-places') if not okall else 'tolerance within half a unit in the last place'
         if not guards:
             verdict = False
         if verdict is None:
-            raise AnalysisError(f'format_float: return `{ast.unparse(r.value) if r.value else None}` does not derive from the fixed-point conversion and its guard is not an enumerated idiom')
-        ctx.check('C05.G4', verdict, mod, r, f'alternative text path `return {ast.unparse(r.value) if r.value else None}`: {why}', func='format_float',
-                  text='alt return ' + (ast.unparse(r.value)[:50] if r.value else 'None'))
+            raise AnalysisError(f'format_float: return `{U(r.value) if r.value else None}` does not derive from the fixed-point conversion and its guard is not an enumerated idiom')
+        ctx.check('C05.G4', verdict, mod, r, f'alternative text path `return {U(r.value) if r.value else None}`: {why}', func='format_float',
+                  text='alt return ' + (U(r.value)[:50] if r.value else 'None'))
 
 
 
